@@ -180,8 +180,60 @@ func genBig(t *rapid.T) string {
 	return out
 }
 
+// genSemantic builds sources that are syntactically valid but that the
+// resolver rejects (scalar/array conflicts, misuse of special variables and
+// function names, bad calls): those errors are positioned from stored AST
+// positions rather than from the token stream, one per syntactic form.
+var arrayUses = []string{"X[1] = 1", "y = X[1]", "delete X[1]", "delete X", "y = (1) in X", "y = (1, 2) in X", "if ((k, 2) in X) n++", "print (1, 2) in X", "for (k in X) n++", "n = split(\"a b\", X)",
+	"n = split(\"a b\", X, /b/)", "arrf(X)", "getline X[1]", "sub(/a/, \"b\", X[1])", "y = X[1, 2]", "X[1]++", "y = !((1,2) in X)", "while ((1, 2) in X) break", "y = 1 + (3, 4) in X"}
+var scalarUses = []string{"X = 1", "y = X + 1", "X++", "print X", "getline X", "scalf(X)", "y = X ~ /a/", "y = $X", "sub(/a/, \"b\", X)", "y = X \"s\"", "y = -X", "X += 2", "y = length(X) X", "printf \"%s\", X", "y = (X, 1) in arr"}
+var otherBad = []string{"y = undefinedf(1)", "scalf(1, 2, 3)", "arrf(1)", "y = scalf", "scalf = 1", "NR[1] = 1", "y = (1, 2) in NR", "y = ENVIRON + 1", "ARGV = 1", "function scalf(q) { }", "function dup(a, a) { }", "function NR() { }", "function nrp(NR) { }", "y = arrf(scalf)", "scalf[1] = 2", "y = (1, 2) in scalf"}
+
+func genSemantic(t *rapid.T) string {
+	name := rapid.SampledFrom([]string{"x", "x", "val", "NR", "FS", "p", "ENVIRON", "scalf"}).Draw(t, "name")
+	var stmts []string
+	n := rapid.IntRange(1, 4).Draw(t, "nuses")
+	for i := 0; i < n; i++ {
+		var st string
+		switch rapid.IntRange(0, 4).Draw(t, "usekind") {
+		case 0, 1:
+			st = rapid.SampledFrom(arrayUses).Draw(t, "au")
+		case 2, 3:
+			st = rapid.SampledFrom(scalarUses).Draw(t, "su")
+		default:
+			st = rapid.SampledFrom(otherBad).Draw(t, "ob")
+		}
+		stmts = append(stmts, strings.ReplaceAll(st, "X", name))
+	}
+	var sb strings.Builder
+	sb.WriteString("function arrf(a) { a[1] = 1 }\nfunction scalf(s) { return s + 1 }\n")
+	nl := rapid.SampledFrom([]string{"\n", "\n", "\r\n"}).Draw(t, "nl")
+	for _, st := range stmts {
+		pad := rapid.SampledFrom([]string{"", " ", "\t", "  # c" + nl, nl, nl + nl + "   ", "\\" + nl}).Draw(t, "pad")
+		if strings.HasPrefix(st, "function ") {
+			sb.WriteString(pad + st + nl)
+			continue
+		}
+		switch rapid.IntRange(0, 4).Draw(t, "place") {
+		case 0:
+			sb.WriteString("BEGIN {" + pad + st + " }" + nl)
+		case 1:
+			sb.WriteString("{" + pad + st + "; n++ }" + nl)
+		case 2:
+			sb.WriteString("END { if (n) {" + pad + st + " } }" + nl)
+		case 3:
+			sb.WriteString("function u" + fmt.Sprint(len(sb.String())) + "(p, q) {" + pad + st + " }" + nl)
+		default:
+			sb.WriteString("NR == 1 {" + nl + pad + st + nl + "}" + nl)
+		}
+	}
+	return sb.String()
+}
+
 func genSrc(t *rapid.T) (string, string) {
-	switch k := rapid.IntRange(0, 99).Draw(t, "kind"); {
+	switch k := rapid.IntRange(0, 109).Draw(t, "kind"); {
+	case k >= 100:
+		return genSemantic(t), "semantic"
 	case k < 40:
 		return genTokenSoup(t), "soup"
 	case k < 85:
